@@ -59,6 +59,7 @@ type driver struct {
 	rc      *runConfig
 	P       *Program
 	snap    *Snapshot
+	snapInt *Snapshot
 	mu      sync.Mutex
 	cond    *sync.Cond
 	queue   []task
@@ -182,6 +183,7 @@ func (d *driver) worker(id int) {
 func (d *driver) runPath(t task, ts *TermStore, sol *Solver) {
 	ex := NewExec(d.P, ts, sol)
 	ex.snapshot = d.snap
+	ex.snapshotInt = d.snapInt
 	ex.resetPath(t.prefix)
 	ex.harness = t.j.label()
 	ex.splits = t.j.splits
@@ -420,8 +422,9 @@ func runProperty(rc *runConfig) int {
 		return 2
 	}
 	loadS := time.Since(t0).Seconds()
-	snap := buildSnapshot(P, rc.verbose)
-	d := &driver{rc: rc, P: P, snap: snap, fns: map[*ssa.Function]bool{}, deadline: time.Now().Add(rc.timeout)}
+	snap := buildSnapshot(P, rc.verbose, false)
+	snapInt := buildSnapshot(P, rc.verbose, true)
+	d := &driver{rc: rc, P: P, snap: snap, snapInt: snapInt, fns: map[*ssa.Function]bool{}, deadline: time.Now().Add(rc.timeout)}
 	d.cond = sync.NewCond(&d.mu)
 	var only *regexp.Regexp
 	if rc.only != "" {
